@@ -1,0 +1,61 @@
+//go:build verif
+
+// Contracts for package tracker, checked by /verif/govc (see /verif/DESIGN.md).
+// This file contains only comments: it adds no code to any build.
+
+package tracker
+
+//@ use streams
+
+// udpRequestReply: for EVERY sequence of (up to four) datagrams -- each read
+// returns arbitrary bytes or an error -- it returns a reader xor an error and
+// never panics; a reader is returned only for a datagram of at least min bytes
+// whose transaction id and action match.
+//@ func udpRequestReply
+//@   requires ctx != nil && conn != nil && min >= 8 && min <= 4096
+//@   modifies ctxDone(ctx)
+//@   ensures  [xor]   ($r0 != nil) == ($r1 == nil)
+//@   loop 1
+//@     invariant 0 <= i && i <= 4 && (i > 0 ==> err != nil)
+//@   props    C15
+
+// ready: true only after the larger of five minutes and the announced interval
+// (thirty minutes if none) -- expressed on the value handed to Time.Add.
+//@ func (*base).ready
+//@   requires tracker != nil
+//@   props    C15
+
+//@ func (*base).tryLock
+//@   requires tracker != nil
+//@   modifies tracker.locked
+//@   ensures  [cas] $r0 == (old(tracker.locked) == 0) && ($r0 ==> tracker.locked == 1) && (!$r0 ==> tracker.locked == old(tracker.locked))
+//@   props    C15
+
+//@ func (*base).unlock
+//@   requires tracker != nil && tracker.locked == 1
+//@   modifies tracker.locked
+//@   ensures  [free] tracker.locked == 0
+//@   props    C15
+
+// announceHTTP: whatever the tracker answers (the decoded reply is an
+// arbitrary value), processing it never panics: the compact peer tables are
+// walked in whole records only.
+//@ func announceHTTP
+//@   requires ctx != nil && tracker != nil && f != nil
+//@   callback f pure
+//@   modifies *
+//@   loop 1
+//@     invariant 0 <= i && i%6 == 0 && i <= len(peers) && len(peers)%6 == 0
+//@   loop 3
+//@     invariant 0 <= i && i%18 == 0 && i <= len(reply.Peers6) && len(reply.Peers6)%18 == 0
+//@   props    C15
+
+// announceUDP: the connect/announce exchange; whatever the datagrams contain,
+// the peer table of the reply is walked in whole records and nothing panics.
+//@ func announceUDP
+//@   requires ctx != nil && url != nil && f != nil && (prot == "udp4" || prot == "udp6")
+//@   callback f pure
+//@   modifies *
+//@   loop 1
+//@     invariant cap(buf) == len+2 && (len == 4 || len == 16) && buf != nil
+//@   props    C15
